@@ -101,6 +101,12 @@ int main(int argc, char **argv) {
         %(call)s
         printf("%%s=%%s\n", argv[i], last_called);
     }
+    /* the same names through the production caller of this registry (filter chain walker / configured-output dispatch) */
+    for (int i = 1; i < argc; i++) {
+        last_called = "-";
+        %(route)s
+        printf("ROUTE:%%s=%%s\n", argv[i], last_called);
+    }
     printf("COUNT=%%d\n", %(pre)s_getCount());
     return 0;
 }
@@ -133,8 +139,6 @@ def stubs_source(kind, names):
             out.append('int %s(char const * const a) { (void)a; last_called = "%s"; return 1; }' % (f, n))
         else:
             out.append('int %s(char const * const m, char const * const a) { (void)m; (void)a; last_called = "%s"; return 1; }' % (f, n))
-    if kind == 'output':
-        out.append('void *snoopy_configuration_get(void) { return 0; }   /* only referenced by the dispatch helper, never called here */')
     return '\n'.join(out) + '\n'
 
 
@@ -171,7 +175,11 @@ def run(ck):
         names = U[kind] + extra[kind]
         open(os.path.join(root, 'stubs_%s.c' % kind), 'w').write(stubs_source(kind, names))
         call = {'datasource': 'char b[8]; %s_callByName(argv[i], b, sizeof b, "");' % pre, 'filter': '%s_callByName(argv[i], "");' % pre, 'output': '%s_callByName(argv[i], "m", "");' % pre}[kind]
-        open(os.path.join(root, 'main_%s.c' % kind), 'w').write(STUB_MAIN % {'hdr': os.path.basename(path)[:-2] + '.h', 'pre': pre, 'call': call})
+        route = {'datasource': '',
+                 'filter': 'extern int snoopy_filtering_check_chain(char const * const); char spec[300]; snprintf(spec, sizeof spec, "%s:arg", argv[i]); if (argv[i][0]) snoopy_filtering_check_chain(spec);',
+                 'output': 'extern snoopy_configuration_t verif_cfg; extern int snoopy_outputregistry_dispatch(char const * const); verif_cfg.output = argv[i]; verif_cfg.output_arg = ""; snoopy_outputregistry_dispatch("m");'}[kind]
+        open(os.path.join(root, 'main_%s.c' % kind), 'w').write(('#include "configuration.h"\nsnoopy_configuration_t verif_cfg;\nsnoopy_configuration_t *snoopy_configuration_get(void) { return &verif_cfg; }\n' if kind == 'output' else '') +
+                                                                  STUB_MAIN % {'hdr': os.path.basename(path)[:-2] + '.h', 'pre': pre, 'call': call, 'route': route})
         r = sh(['gcc', '-O0', '-c', os.path.join(root, 'stubs_%s.c' % kind), '-o', os.path.join(root, 'stubs_%s.o' % kind)])
         if r.returncode:
             raise build.BuildError(r.stderr.decode()[:1500])
@@ -188,7 +196,7 @@ def run(ck):
             for n in sorted(en):
                 f.write('#define %s%s 1\n' % (sw, n))
         exe = os.path.join(d, 'q')
-        r = sh(['gcc', '-O0', '-std=c99', '-I' + d, '-I' + os.path.join(repo, 'src'), '-I' + repo, os.path.join(repo, path), os.path.join(repo, 'src/genericregistry.c'),
+        r = sh(['gcc', '-O0', '-std=c99', '-I' + d, '-I' + os.path.join(repo, 'src'), '-I' + repo, os.path.join(repo, path), os.path.join(repo, 'src/genericregistry.c')] + ([os.path.join(repo, 'src/filtering.c')] if kind == 'filter' else []) + [
                 os.path.join(root, 'main_%s.c' % kind), os.path.join(root, 'stubs_%s.o' % kind), '-o', exe])
         if r.returncode:
             shutil.rmtree(d, ignore_errors=True)
@@ -223,6 +231,16 @@ def run(ck):
             if g != want:
                 ck.violation('C13:%s:%s:name=%s:runs=%s' % ('wrong_binding' if want != 'UNKNOWN' and g != 'UNKNOWN' else ('missing' if g == 'UNKNOWN' else 'disabled_or_unknown_name_resolves'), label[:80], p, g),
                              {'configuration': label, 'name': p, 'resolves_to': g, 'expected': want})
+        if kind in ('filter', 'output'):
+            for p in probes:
+                if not p:
+                    continue
+                evals += 1
+                g = got.get('ROUTE:' + p)
+                want = p if p in expected_on else '-'
+                if g != want:
+                    ck.violation('C13:wrong_binding_through_%s:%s:name=%s:runs=%s' % ('filter_chain' if kind == 'filter' else 'output_dispatch', label[:80], p, g),
+                                 {'configuration': label, 'name': p, 'runs': g, 'expected': want, 'route': 'snoopy_filtering_check_chain' if kind == 'filter' else 'snoopy_outputregistry_dispatch'})
         if int(got['COUNT']) != len(expected_on):
             ck.violation('C13:count:%s:got=%s:want=%d' % (label[:80], got['COUNT'], len(expected_on)), {'configuration': label})
         # trace binding: the model's predicted table for this configuration equals the compiled one
